@@ -124,7 +124,11 @@ class Session:
         from . import lower
 
         r = lower.solve(list(assertions), timeout)
-        return self._rec(kind="witness", name=name, status=r.status, seconds=round(r.seconds, 4))
+        status, how = r.status, "solver"
+        if status == "unknown" and _random_witness(list(assertions)):
+            # a satisfying assignment found by evaluation is as good a witness
+            status, how = "sat", "evaluation"
+        return self._rec(kind="witness", name=name, status=status, seconds=round(r.seconds, 4), how=how)
 
     def mutant(self, name, assumptions, neg_goal, timeout=30.0):
         """A deliberately wrong oracle: must come back sat."""
@@ -384,10 +388,19 @@ def _run_pool(pid, jobs, nproc, has_conf, tier):
                 outstanding -= 1
                 if kind == "job":
                     results.append(payload)
-                elif kind == "conf":
-                    conf_symtf = payload
-                elif kind == "conf_err":
-                    conf_err = "symtf conformance run failed: " + payload
+                elif kind in ("conf", "conf_err"):
+                    if kind == "conf":
+                        conf_symtf = payload
+                    else:
+                        conf_err = "symtf conformance run failed: " + payload
+                    # the conformance run executes the replay-side code of the property under symtf and may leave
+                    # module state behind (float-mode patches): its process is retired, symbolic jobs get a fresh one
+                    try:
+                        w["conn"].send(None)
+                    except Exception:
+                        pass
+                    idx = workers.index(w)
+                    workers[idx] = spawn()
                 else:
                     if job == ("__conformance__",):
                         conf_err = "symtf conformance worker died"
